@@ -118,31 +118,41 @@ def collect(stdout, byid):
 
 # ---------------------------------------------------------------- running
 
-def run_ego(ego, env, sd, cases, mode, tag, stats):
+def run_ego(ego, env, sd, cases, mode, tag, stats, batch=BATCH):
     """-> {id: obs}.  Batches; a case without a printed line is re-run in smaller batches and finally alone."""
     wd = os.path.join(sd, "ego-" + tag)
     os.makedirs(wd, exist_ok=True)
     res = {}
     byid = {c["id"]: c for c in cases}
     serial = [0]
-    pending = [cases[i:i + BATCH] for i in range(0, len(cases), BATCH)]
+    pending = [(cases[i:i + batch], 0) for i in range(0, len(cases), batch)]
     while pending:
         jobs, metas = [], []
-        for b in pending:
+        for b, tries in pending:
             serial[0] += 1
             fn = os.path.join(wd, "p%d.ego" % serial[0])
             open(fn, "w", encoding="utf8", newline="").write(ego_program(b))
             argv = [ego, "run"] + (["--types", mode] if mode != "default" else []) + [fn]
             jobs.append((argv, None, wd, env))
-            metas.append(b)
-        outs = vf.run_many(jobs, timeout=60)
+            metas.append((b, tries))
+        outs = vf.run_many(jobs, timeout=120)
         stats["ego_runs"] += len(jobs)
         pending = []
-        for b, (rc, so, se) in zip(metas, outs):
+        for (b, tries), (rc, so, se) in zip(metas, outs):
             got = collect(so, byid)
             res.update(got)
             missing = [c for c in b if c["id"] not in got]
             if not missing:
+                continue
+            if rc is None:                      # timeout: machine load, or a hang - decided on a single case only
+                if len(b) == 1 and tries >= 2:
+                    o = blank_obs(b[0]["ctx"])
+                    o["text"] = "no result within 120 s (three attempts)"
+                    res[b[0]["id"]] = o
+                else:
+                    pending.append((missing, tries + 1) if len(b) == 1 else (missing[:max(1, len(missing) // 2)], 0))
+                    if len(b) > 1 and len(missing) > 1:
+                        pending.append((missing[max(1, len(missing) // 2):], 0))
                 continue
             if len(b) == 1:
                 o = blank_obs(b[0]["ctx"])
@@ -150,7 +160,7 @@ def run_ego(ego, env, sd, cases, mode, tag, stats):
                 res[b[0]["id"]] = o
                 continue
             n = max(1, (len(missing) + 3) // 4) if len(missing) > 4 else 1
-            pending += [missing[i:i + n] for i in range(0, len(missing), n)]
+            pending += [(missing[i:i + n], 0) for i in range(0, len(missing), n)]
     return res
 
 
@@ -159,7 +169,7 @@ def run_go(sd, cases):
     os.makedirs(wd, exist_ok=True)
     open(os.path.join(wd, "go.mod"), "w").write("module c06x\n\ngo 1.24\n")
     open(os.path.join(wd, "main.go"), "w", encoding="utf8", newline="").write(go_program(cases))
-    p = vf.run([vf.GO, "run", "."], cwd=wd, env=vf.goenv({"GOFLAGS": ""}), timeout=600)
+    p = vf.run([vf.GO, "run", "."], cwd=wd, env=vf.goenv(), timeout=900)
     if p.returncode != 0:
         raise vf.NoVerdict("Go cross-check: the generated cases are not a legal Go program (the spec's WF/grammar is wrong, "
                            "not a finding):\n" + p.stderr[-3000:])
@@ -172,27 +182,42 @@ def run_go(sd, cases):
 
 # ---------------------------------------------------------------- judging (TLC)
 
-def group_records(lits, obs_by_case):
-    """one record per literal; identical observations in one context merged.  -> (records, back) with
-    back[(record index, obs index)] = list of (case id, who)"""
+FIELDS = ("st", "ty", "neg", "digs", "exp", "neg2", "digs2", "exp2", "bytes")
+
+
+def group_records(entries_by_lit):
+    """entries_by_lit: list of (lit, [(case id, who, ctx, obs)]).  One record per literal; observations that printed exactly
+    the same are merged, with the list of contexts they were seen in.
+    -> (records, back) with back[(record index, obs index, ctx)] = [(case id, who, text)] (indices 1-based as in TLA+)"""
     recs, back = [], {}
-    for lit_key, lit, entries in lits:
+    for lit, entries in entries_by_lit:
+        if not entries:
+            continue
         seen, obs = {}, []
-        for cid, who, o in entries:
-            k = json.dumps({x: o[x] for x in o if x != "text"}, sort_keys=True)
+        for cid, who, ctx, o in entries:
+            k = json.dumps([o[x] for x in FIELDS])
             if k not in seen:
-                obs.append({x: o[x] for x in o if x != "text"})
+                g = {x: o[x] for x in FIELDS}
+                g["ctxs"] = []
+                obs.append(g)
                 seen[k] = len(obs)
-            back.setdefault((len(recs) + 1, seen[k]), []).append((cid, who, o.get("text", "")))
+            g = obs[seen[k] - 1]
+            if ctx not in g["ctxs"]:
+                g["ctxs"].append(ctx)
+            back.setdefault((len(recs) + 1, seen[k], ctx), []).append((cid, who, o.get("text", "")))
         recs.append({"lit": lit, "obs": obs})
     return recs, back
 
 
+def n_pairs(recs):
+    return sum(len(o["ctxs"]) for r in recs for o in r["obs"])
+
+
 def judge(chk, sd, recs, name, shards):
-    """-> (judged, [ {idx, obs, key} ]) ; records are spread over `shards` TLC runs"""
+    """-> (judged, [ {idx, obs, ctx, key} ]) ; records are spread over `shards` TLC runs"""
     if not recs:
         return 0, []
-    shards = max(1, min(shards, len(recs) // 50 or 1))
+    shards = max(1, min(shards, len(recs) // 40 or 1))
     parts = [list(range(s, len(recs), shards)) for s in range(shards)]
 
     def one(s):
@@ -214,7 +239,7 @@ def judge(chk, sd, recs, name, shards):
             chk.add_tlc(r, "contract: " + name + (" (shard 1 of %d)" % shards if shards > 1 else ""), count_states=False)
         judged += int(rep["judged"])
         for b in (rep["bad"] if isinstance(rep["bad"], list) else []):
-            bad.append({"idx": parts[s][int(b["idx"]) - 1] + 1, "obs": int(b["obs"]), "key": b["key"]})
+            bad.append({"idx": parts[s][int(b["idx"]) - 1] + 1, "obs": int(b["obs"]), "ctx": b["ctx"], "key": b["key"]})
     return judged, bad
 
 
@@ -228,7 +253,12 @@ def key_text(k):
 def selftest_records():
     """known-bad pairs (each is what the unrepaired interpreter printed, or a one-off perturbation) and good ones"""
     def o(ctx, **kw):
-        b = blank_obs(ctx); b.pop("text"); b.update(st="ok"); b.update(kw); return b
+        b = blank_obs(ctx)
+        b.pop("text")
+        b.pop("ctx")
+        b.update(st="ok", ctxs=[ctx])
+        b.update(kw)
+        return b
     good = [
         {"lit": list("0x_1f"), "obs": [o("arg", ty="int", digs=list("31"))]},
         {"lit": list("1_0"), "obs": [o("neg", ty="int", digs=list("10"), neg=True)]},
@@ -263,37 +293,37 @@ def run():
     import time
     thorough = vf.TIER == "thorough"
     chk = vf.Check(PROP)
-    t0 = [time.time()]
-
-    def lap(what):
-        vf.log("C06 %-28s %6.1fs" % (what, time.time() - t0[0]))
-        t0[0] = time.time()
     rng = random.Random(vf.SEED)
     stats = {"ego_runs": 0}
+    T0 = time.time()
+
+    def lap(what):
+        vf.log("C06 %-46s at %6.1fs" % (what, time.time() - T0))
+
     chk.assumptions += [
         "the observation functions are trusted: fmt.Printf %T %d %b %x, real(), imag() of the interpreter print the value the literal produced "
         "(%b gives mantissa and binary exponent exactly, %x the bytes)",
         "a literal is observed in four embeddings (argument, := variable, parenthesised, negated); integer width (int vs int64) is not "
-        "part of 'value' (any integer type is accepted for an integer literal)",
+        "part of 'value' (any integer type is accepted for an integer literal); -x for a float x that rounds to zero is outside the contract "
+        "(the sign of zero is a matter of constant arithmetic, not of the literal)",
         "number spellings are exhaustive over a reduced alphabet up to a length bound plus boundary spellings; strings/runes over a "
         "catalogue of body elements (every escape form) in every position of short bodies",
         "TLC, the Go toolchain (only to cross-check the specification, never for the verdict) and python's text handling are trusted"]
-    with vf.scratch() as sd:
-        # 1. design: derivation = recogniser, denotation sanity (exhaustive at the bound)
-        r = vf.tlc_ok(vf.tlc(SPEC, "Literals_MC", "Literals_MC.cfg" if thorough else "Literals_MCq.cfg", sd, workers=8,
-                             timeout=1500, env=TLC_ENV), "Literals MC")
-        chk.add_tlc(r, "MC: derivation = recogniser over all strings; radix round trip; separators ignored; float rounding of small integers")
-        lap("MC")
-        # 2. negative control: the agreement invariant must reject a grammar without the separator after a radix prefix
-        rn = vf.tlc(SPEC, "Literals_MC", "Literals_MC_asis.cfg", sd, workers=2, timeout=600, env=TLC_ENV)
-        if rn.violated != "AgreeBroken":
-            raise vf.NoVerdict("negative control: grammar without prefix separator was not rejected (%s %s)" % (rn.violated, rn.error))
-        chk.add_tlc(rn, "negative control (no separator after radix prefix) violates AgreeBroken", count_states=False)
-        lap("negative control")
+    shards = 8 if thorough else 3
+    with vf.scratch() as sd, ThreadPoolExecutor(max_workers=6) as pool:
+        # 1-3 run side by side: design MC, its negative control, the case generator, and the build of the real binary
+        f_mc = pool.submit(vf.tlc, SPEC, "Literals_MC", "Literals_MC.cfg" if thorough else "Literals_MCq.cfg", sd,
+                           workers=6 if thorough else 3, timeout=1500, env=TLC_ENV)
+        f_nc = pool.submit(vf.tlc, SPEC, "Literals_MC", "Literals_MC_asis.cfg", sd, workers=1, timeout=600, env=TLC_ENV)
+        f_gen = pool.submit(vf.tlc, SPEC, "Literals_Gen", "Literals_Gen.cfg" if thorough else "Literals_Genq.cfg", sd,
+                            workers=6 if thorough else 3, timeout=1500, env=TLC_ENV)
+
+        def build():
+            ov = vf.make_overlay(sd, [])
+            return vf.build_ego(sd, ov)
+        f_ego = pool.submit(build)
         # 3. the cases
-        rg = vf.tlc(SPEC, "Literals_Gen", "Literals_Gen.cfg" if thorough else "Literals_Genq.cfg", sd, workers=8,
-                    timeout=1500, env=TLC_ENV)
-        vf.tlc_ok(rg, "Literals_Gen")
+        rg = vf.tlc_ok(f_gen.result(), "Literals_Gen")
         chk.add_tlc(rg, "Gen: one state per literal spelling")
         lap("Gen")
         lits, seen = [], set()
@@ -303,15 +333,17 @@ def run():
                 seen.add(k)
                 lits.append(rec)
         lits.sort(key=lambda x: json.dumps(x["lit"]))
-        if len(lits) < 500:
-            raise vf.NoVerdict("generator produced only %d literals" % len(lits))
+        chk.cov["literals_generated"] = len(lits)
+        if not thorough:    # quick tier: the boundary spellings, every rune literal and a seeded third of the rest
+            lits = [l for l in lits if l["grp"] == "boundary" or l["kind"] == "rune" or rng.random() < 0.34]
         kinds = {}
         for l in lits:
             kinds[l["kind"]] = kinds.get(l["kind"], 0) + 1
         chk.cov["literals_by_kind"] = kinds
-        if set(kinds) != {"int", "float", "imag", "rune", "string", "raw"}:
-            raise vf.NoVerdict("generator misses a literal kind: %s" % kinds)
-        # modes x contexts: every literal in every admissible context under the first mode; the other modes on a seeded part
+        chk.cov["spellings_outside_contract_domain"] = sorted({shown(r["lit"]) for r in rg.records if not r.get("ctx")})[:40]
+        if len(lits) < 500 or set(kinds) != {"int", "float", "imag", "rune", "string", "raw"}:
+            raise vf.NoVerdict("generator produced too little: %s" % kinds)
+        # every literal in every admissible context under the first mode; the other typing modes on a seeded part
         modes = ["default", "strict", "relaxed", "dynamic"] if thorough else ["default", ["strict", "relaxed", "dynamic"][vf.SEED % 3]]
         cases, cid = [], 0
         per_mode = {m: [] for m in modes}
@@ -322,18 +354,52 @@ def run():
                     c = {"id": cid, "li": li, "lit": l["lit"], "kind": l["kind"], "ctx": ctx}
                     cases.append(c)
                     for mi, m in enumerate(modes):
-                        if mi == 0 or rng.random() < (0.34 if thorough else 0.25):
+                        if mi == 0 or rng.random() < (0.34 if thorough else 0.2):
                             per_mode[m].append(c)
+        byid = {c["id"]: c for c in cases}
         chk.cov["cases"] = len(cases)
+
         # 4. the spec against Go (all cases): disagreement is a spec bug, never a finding
-        gobs = run_go(sd, cases)
-        lap("go run %d cases" % len(cases))
-        grp = [(json.dumps(l["lit"]), l["lit"], []) for l in lits]
-        for c in cases:
-            grp[c["li"]][2].append((c["id"], "go", gobs[c["id"]]))
-        grecs, gback = group_records(grp, gobs)
-        shards = 8 if thorough else 4
-        gj, gbad = judge(chk, sd, grecs, "Go toolchain output (cross-check of the spec)", shards)
+        def go_side():
+            gobs = run_go(sd, cases)
+            lap("go run %d cases" % len(cases))
+            ent = [(l["lit"], []) for l in lits]
+            for c in cases:
+                ent[c["li"]][1].append((c["id"], "go", c["ctx"], gobs[c["id"]]))
+            grecs, _gback = group_records(ent)
+            gj, gbad = judge(chk, sd, grecs, "Go toolchain output (cross-check of the spec)", shards)
+            lap("judge go")
+            return grecs, gj, gbad
+        f_go = pool.submit(go_side)
+
+        # 5. ego
+        ego = f_ego.result()
+        env = vf.ego_env(sd)
+        lap("build ego")
+        eobs = {m: run_ego(ego, env, sd, per_mode[m], m, m, stats) for m in modes}
+        total = sum(len(per_mode[m]) for m in modes)
+        lap("ego runs %d" % total)
+        ent = [(l["lit"], []) for l in lits]
+        for m in modes:
+            for c in per_mode[m]:
+                ent[c["li"]][1].append((c["id"], m, c["ctx"], eobs[m][c["id"]]))
+        erecs, eback = group_records(ent)
+        ej, ebad = judge(chk, sd, erecs, "ego output", shards)
+        lap("judge ego")
+        if ej != n_pairs(erecs):
+            raise vf.NoVerdict("contract judged %d of %d ego observations" % (ej, n_pairs(erecs)))
+        chk.cov["evaluations"] = total
+        chk.cov["distinct_nontrivial"] = n_pairs(erecs)
+        chk.cov["traces_validated_against_impl"] = total
+
+        # design results and the cross-check must be in before anything is called a violation
+        r = vf.tlc_ok(f_mc.result(), "Literals MC")
+        chk.add_tlc(r, "MC: derivation = recogniser over all strings; radix round trip; separators ignored; float rounding of small integers")
+        rn = f_nc.result()
+        if rn.violated != "AgreeBroken":
+            raise vf.NoVerdict("negative control: grammar without prefix separator was not rejected (%s %s)" % (rn.violated, rn.error))
+        chk.add_tlc(rn, "negative control (no separator after radix prefix) violates AgreeBroken", count_states=False)
+        grecs, gj, gbad = f_go.result()
         if gj != len(cases):
             raise vf.NoVerdict("cross-check: contract judged %d of %d cases (WF of Gen and Trace disagree)" % (gj, len(cases)))
         if gbad:
@@ -341,85 +407,49 @@ def run():
             raise vf.NoVerdict("the specification disagrees with Go on %d cases, e.g. %s [%s] Go printed %s" % (
                 len(gbad), shown(grecs[b["idx"] - 1]["lit"]), key_text(b["key"]), json.dumps(grecs[b["idx"] - 1]["obs"][b["obs"] - 1])[:400]))
         chk.cov["go_crosscheck_cases"] = len(cases)
-        lap("judge go")
-        # 5. ego
-        ov = vf.make_overlay(sd, [])
-        ego = vf.build_ego(sd, ov)
-        env = vf.ego_env(sd)
-        lap("build ego")
-        eobs = {}
-        for m in modes:
-            eobs[m] = run_ego(ego, env, sd, per_mode[m], m, m, stats)
-        grp = [(json.dumps(l["lit"]), l["lit"], []) for l in lits]
-        total = 0
-        for m in modes:
-            for c in per_mode[m]:
-                grp[c["li"]][2].append((c["id"], m, eobs[m][c["id"]]))
-                total += 1
-        lap("ego runs %d" % total)
-        erecs, eback = group_records(grp, None)
-        ej, ebad = judge(chk, sd, erecs, "ego output", shards)
-        lap("judge ego")
-        nobs = sum(len(r["obs"]) for r in erecs)
-        if ej != nobs:
-            raise vf.NoVerdict("contract judged %d of %d ego observations" % (ej, nobs))
-        chk.cov["evaluations"] = total
-        chk.cov["distinct_nontrivial"] = nobs
-        chk.cov["traces_validated_against_impl"] = total
+        lap("MC, control, cross-check done")
+
         # 6. every failing case again, alone in its own program, judged again (a batch neighbour must not be blamed or blame)
         redo = {}
         for b in ebad:
-            for (cid_, who, _t) in eback[(b["idx"], b["obs"])]:
-                redo.setdefault(who, []).append(cid_)
-        byid = {c["id"]: c for c in cases}
-        global BATCH
+            for (cid_, who, _t) in eback[(b["idx"], b["obs"], b["ctx"])]:
+                redo.setdefault(who, set()).add(cid_)
         confirmed = []
         if redo:
-            keep = BATCH
-            BATCH = 1
-            try:
-                sobs = {m: run_ego(ego, env, sd, [byid[i] for i in sorted(set(ids))], m, m + "-single", stats) for m, ids in redo.items()}
-            finally:
-                BATCH = keep
-            grp2, pos = [], {}
-            for m, ids in sobs.items():
-                for i, ob in ids.items():
+            sobs = {m: run_ego(ego, env, sd, [byid[i] for i in sorted(ids)], m, m + "-single", stats, batch=1) for m, ids in redo.items()}
+            ent2, pos = [], {}
+            for m, obsd in sobs.items():
+                for i, ob in sorted(obsd.items()):
                     c = byid[i]
                     if c["li"] not in pos:
-                        pos[c["li"]] = len(grp2)
-                        grp2.append((None, c["lit"], []))
-                    grp2[pos[c["li"]]][2].append((i, m, ob))
-            srecs, sback = group_records(grp2, None)
+                        pos[c["li"]] = len(ent2)
+                        ent2.append((c["lit"], []))
+                    ent2[pos[c["li"]]][1].append((i, m, c["ctx"], ob))
+            srecs, sback = group_records(ent2)
             sj, sbad = judge(chk, sd, srecs, "ego output, failing cases re-run alone", shards)
             for b in sbad:
                 rec = srecs[b["idx"] - 1]
-                who = sback[(b["idx"], b["obs"])]
-                confirmed.append((key_text(b["key"]), rec["lit"], rec["obs"][b["obs"] - 1], who))
-        lap("singles")
+                confirmed.append((key_text(b["key"]), rec["lit"], b["ctx"], rec["obs"][b["obs"] - 1], sback[(b["idx"], b["obs"], b["ctx"])]))
+            lap("singles %d" % sum(len(v) for v in redo.values()))
         chk.cov["failing_in_batch"] = len(ebad)
         chk.cov["failing_alone"] = len(confirmed)
-        for key, lit, ob, who in confirmed:
+        for key, lit, ctx, ob, who in confirmed:
             c = byid[who[0][0]]
-            src = ego_program([c])
             chk.violation(key, "literal %s (%s) in context %s: ego printed type %r %s (modes %s); the Go specification gives another value"
-                          % (shown(lit), c["kind"], ob["ctx"], ob["ty"], (who[0][2] or "")[:160], sorted({w[1] for w in who})),
-                          {"literal": shown(lit), "context": ob["ctx"], "observation": ob, "modes": sorted({w[1] for w in who}),
-                           "program": src, "run": "ego run" + ("" if who[0][1] == "default" else " --types " + who[0][1]) + " file.ego"})
-        # 7. binding self-test / vacuity guard: known-bad pairs must fail the contract, good ones must pass
+                          % (shown(lit), c["kind"], ctx, ob["ty"], (who[0][2] or "")[:160], sorted({w[1] for w in who})),
+                          {"literal": shown(lit), "context": ctx, "observation": ob, "modes": sorted({w[1] for w in who}),
+                           "program": ego_program([c]),
+                           "run": "ego run" + ("" if who[0][1] == "default" else " --types " + who[0][1]) + " file.ego"})
+
+        # 7. binding self-test / vacuity guard: known-bad pairs and perturbed real observations must fail the contract, good ones pass
         good, badp = selftest_records()
-        trecs = good + [b for _n, b in badp]
-        tj, tbad = judge(chk, sd, trecs, None or "self-test pairs", 1)
-        flagged = {b["idx"] for b in tbad}
-        want = set(range(len(good) + 1, len(trecs) + 1))
-        if tj != len(trecs) or flagged != want:
-            raise vf.NoVerdict("binding self-test failed: judged %d/%d, flagged %s, expected %s" % (tj, len(trecs), sorted(flagged), sorted(want)))
-        # and one real observation perturbed
-        okrecs = [i for i, r in enumerate(erecs) if r["obs"] and r["obs"][0]["st"] == "ok" and (r["obs"][0]["digs"] or r["obs"][0]["bytes"])
-                  and (i + 1) not in {b["idx"] for b in ebad}]
-        if not okrecs:
-            raise vf.NoVerdict("self-test: no passing ego observation to perturb")
+        failing = {b["idx"] for b in ebad}
+        okrecs = [i for i, r in enumerate(erecs) if (i + 1) not in failing and r["obs"][0]["st"] == "ok"
+                  and (r["obs"][0]["digs"] or r["obs"][0]["bytes"])]
+        if len(okrecs) < 10:
+            raise vf.NoVerdict("self-test: too few passing ego observations to perturb (%d)" % len(okrecs))
         pert = []
-        for i in rng.sample(okrecs, min(12, len(okrecs))):
+        for i in rng.sample(okrecs, 12):
             r = json.loads(json.dumps(erecs[i]))
             ob = r["obs"][0]
             r["obs"] = [ob]
@@ -430,9 +460,14 @@ def run():
             else:
                 ob["digs"][-1] = str((int(ob["digs"][-1]) + 1) % 10)
             pert.append(r)
-        pj, pbad = judge(chk, sd, pert, "self-test perturbed observations", 1)
-        if len({b["idx"] for b in pbad}) != len(pert):
-            raise vf.NoVerdict("binding self-test failed: %d of %d perturbed real observations were accepted" % (len(pert) - len(pbad), len(pert)))
+        trecs = good + [b for _n, b in badp] + pert
+        tj, tbad = judge(chk, sd, trecs, "self-test pairs", 1)
+        flagged = {b["idx"] for b in tbad}
+        want = set(range(len(good) + 1, len(trecs) + 1))
+        if tj != n_pairs(trecs) or flagged != want:
+            names = [n for n, _b in badp] + ["perturbed %s" % shown(p["lit"]) for p in pert]
+            raise vf.NoVerdict("binding self-test failed: judged %d/%d; wrongly accepted: %s; wrongly rejected good pairs: %s" % (
+                tj, n_pairs(trecs), [names[i - len(good) - 1] for i in sorted(want - flagged)], sorted(flagged - want)))
         lap("selftest")
         chk.cov["binding_selftest"] = "%d known-bad pairs rejected, %d good pairs accepted, %d perturbed real observations rejected" % (
             len(badp), len(good), len(pert))
@@ -444,5 +479,5 @@ def run():
         chk.cov["rule"] = ("literals = all spellings derived by Literals_Gen (numbers: exhaustive over Sigma up to length L, + boundary "
                            "spellings; runes/strings/raw strings: element catalogue x positions); evaluations = (literal, context, mode) "
                            "runs of the real ego binary judged by the TLA+ contract; distinct = distinct (literal, context, printed value)")
-        chk.cov["exhaustive"] = True
+        chk.cov["exhaustive"] = thorough    # quick runs a seeded third of the derived spellings
     return chk.finish()
